@@ -238,9 +238,30 @@ func genRowsCfg(rng *Rng) rowsCfg {
 	cfg.ranger = rng.Chance(25)
 	if rng.Chance(50) {
 		cfg.marker = true
-		cfg.writers[rng.Intn(nw)].del = true
+		d := rng.Intn(nw)
+		cfg.writers[d].del = true
 		if rng.Bool() {
 			cfg.writers[rng.Intn(nw)].keep = true
+		}
+		// beside a commit that carries row markers, another writer often makes the first commit
+		// into a block that does not exist yet (the collection's fill list grows under it)
+		if rng.Chance(70) {
+			has := false
+			for _, o := range cfg.rows {
+				has = has || o == virginRow
+			}
+			if !has {
+				cfg.rows = append(cfg.rows, virginRow)
+			}
+			// ... without touching the first block itself: a point write there would wait for the latch
+			o := (d + 1 + rng.Intn(nw-1)) % nw
+			cfg.writers[o].rows = []uint32{virginRow}
+			for _, r := range cfg.rows {
+				if r>>14 == 1 && rng.Bool() {
+					cfg.writers[o].rows = append(cfg.writers[o].rows, r)
+				}
+			}
+			cfg.writers[o].del, cfg.writers[o].keep = false, false
 		}
 	}
 	return cfg
@@ -569,7 +590,9 @@ func runSnap(cfg rowsCfg, ch func(int, []int) int, grace time.Duration) *scenOut
 		w := w
 		s.Go(i, func() {
 			for round := 0; round <= w.rounds; round++ {
-				snapWriterTxn(c, w)
+				w2 := w
+				w2.d = w.d + int64(round) // every round writes its own delta: which round a restored value comes from shows
+				snapWriterTxn(c, w2)
 			}
 		})
 	}
@@ -676,10 +699,14 @@ func runSnapRest(cfg rowsCfg, c *column.Collection, s *Sched, nw int, ch func(in
 			ok := true
 			for _, off := range rowsOfBlock {
 				exp := initOf(off)
+				occ := map[int]int64{} // the k-th commit of a writer to this block is its k-th round
 				for _, tid := range ord[:n] {
-					for _, r := range cfg.writers[tid].rows {
+					w := cfg.writers[tid]
+					w.d += occ[tid]
+					occ[tid]++
+					for _, r := range w.rows {
 						if r == off {
-							exp = cfg.writers[tid].apply(exp)
+							exp = w.apply(exp)
 						}
 					}
 				}
